@@ -338,6 +338,12 @@ impl rcgen::RemoteKeyPair for HarnessSigner {
     }
     fn sign(&self, msg: &[u8]) -> Result<Vec<u8>, rcgen::Error> {
         let mut log = self.log.lock().unwrap();
+        // the log is a window, not a history: past the end of the script the oldest half is dropped at 8192 entries (a sweep of
+        // 10^8 states would otherwise keep every message it ever signed: tens of gigabytes)
+        if log.messages.len() >= 8192 && self.script.len() < 4096 {
+            log.messages.drain(..4096);
+            log.returned.drain(..4096);
+        }
         let n = log.messages.len();
         log.messages.push(msg.to_vec());
         match self.script.get(n).cloned().unwrap_or(SignScript::Stub) {
